@@ -2,6 +2,8 @@
 // Documents are generated from the grammar together with their expected result (INI: entry
 // list; Apache style: callback stream, return count, or the line of the one injected violation).
 #include "common/vf.hpp"
+#include "common/callers.hpp"
+#include <memory>
 #include <cerrno>
 #include <unistd.h>
 #include <sys/stat.h>
@@ -15,6 +17,8 @@ const char *vf_harness_name = "conf";
 
 namespace {
 std::string g_dir;
+int g_slot = 0;                                   // generation-time: which thread's directory the files go to
+std::string slot_dir() { return g_dir + "/s" + std::to_string(g_slot); }
 void write_file(const std::string &path, const std::string &content) {
     FILE *f = fopen(path.c_str(), "wb");
     if (!f) throw CaseStop{"cannot write temp file"};
@@ -106,7 +110,7 @@ struct IniGen {
     }
 };
 
-void check_ini(Src &s, Ctx &c) {
+Job gen_ini(Src &s, Ctx &c, bool *nontriv) {
     char sep = s.boolean() ? '=' : ':';
     bool usefile = s.chance(1, 3);
     IniGen g(s, sep);
@@ -120,36 +124,41 @@ void check_ini(Src &s, Ctx &c) {
             // the include is spliced in textually: generate its lines in sequence with the main file's state
             std::string inc = g.lines(8, true);
             std::string nm = "inc" + std::to_string(i) + ".conf";
-            write_file(g_dir + "/" + nm, inc);
-            doc += std::string("@INCLUDE ") + pad(s) + (s.chance(1, 4) ? g_dir + "/" + nm : nm) + pad(s) + "\n";
+            write_file(slot_dir() + "/" + nm, inc);
+            doc += std::string("@INCLUDE ") + pad(s) + (s.chance(1, 4) ? slot_dir() + "/" + nm : nm) + pad(s) + "\n";
             doc += g.lines(6, true);
             nincl++;
         }
     }
     // the value text generator never emits '$' outside references and never a key that looks like a section header
     c.op("INI %s, sep '%c', %zu entries expected, %d refs (%d nested, %d env), %d sections, %d includes: %s", usefile ? "file" : "string", sep, g.expect.size(), g.nrefs, g.nnested, g.nenv, g.nsections, nincl, hexs(doc, 300).c_str());
-    qlisttbl_t *t;
-    if (usefile) { write_file(g_dir + "/main.conf", doc); t = qconfig_parse_file(nullptr, (g_dir + "/main.conf").c_str(), sep); }
-    else { char *b = new char[doc.size() + 1]; memcpy(b, doc.c_str(), doc.size() + 1); t = qconfig_parse_str(nullptr, b, sep); delete[] b; }
-    if (!t) c.fail(FUNC, "conf:ini-null", "parser returned NULL for a well-formed document");
-    struct G { qlisttbl_t *t; ~G() { qlisttbl_free(t); } } gg{t};
-    size_t i = 0;
-    for (qlisttbl_obj_t *o = t->first; o; o = o->next, i++) {
-        if (i >= g.expect.size()) c.fail(FUNC, "conf:ini-extra", "parser delivered more than the %zu entries written (extra: %s=%s)", g.expect.size(), hexs(o->name, strlen(o->name)).c_str(), hexs(o->data, o->size).c_str());
-        const auto &e = g.expect[i];
-        if (e.first != o->name) c.fail(FUNC, "conf:ini-name", "entry %zu is named %s, the file says %s", i, hexs(o->name, strlen(o->name)).c_str(), hexs(e.first).c_str());
-        if (o->size != e.second.size() + 1 || memcmp(o->data, e.second.c_str(), o->size) != 0) c.fail(FUNC, "conf:ini-value", "entry %zu (%s) has value %s, the file says %s", i, hexs(e.first).c_str(), hexs(o->data, o->size, 60).c_str(), hexs(e.second, 60).c_str());
-    }
-    if (i != g.expect.size()) c.fail(FUNC, "conf:ini-missing", "parser delivered %zu of the %zu entries written (first missing: %s)", i, g.expect.size(), hexs(g.expect[i].first).c_str());
-    c.nontrivial = g.nsections > 0 && g.nrefs > 0;
+    std::string mainpath = slot_dir() + "/main.conf";
+    if (usefile) write_file(mainpath, doc);
+    *nontriv = g.nsections > 0 && g.nrefs > 0;
     c.tag(usefile ? "ini_file" : "ini_string"); if (g.nnested) c.tag("ini_nested_reference"); if (nincl) c.tag("ini_with_include");
+    std::vector<std::pair<std::string, std::string>> expect = g.expect;
+    return [usefile, mainpath, doc, sep, expect](Ctx &c) {
+        qlisttbl_t *t;
+        if (usefile) t = qconfig_parse_file(nullptr, mainpath.c_str(), sep);
+        else { char *b = new char[doc.size() + 1]; memcpy(b, doc.c_str(), doc.size() + 1); t = qconfig_parse_str(nullptr, b, sep); delete[] b; }
+        if (!t) c.fail(FUNC, "conf:ini-null", "parser returned NULL for a well-formed document");
+        struct G { qlisttbl_t *t; ~G() { qlisttbl_free(t); } } gg{t};
+        size_t i = 0;
+        for (qlisttbl_obj_t *o = t->first; o; o = o->next, i++) {
+            if (i >= expect.size()) c.fail(FUNC, "conf:ini-extra", "parser delivered more than the %zu entries written (extra: %s=%s)", expect.size(), hexs(o->name, strlen(o->name)).c_str(), hexs(o->data, o->size).c_str());
+            const auto &e = expect[i];
+            if (e.first != o->name) c.fail(FUNC, "conf:ini-name", "entry %zu is named %s, the file says %s", i, hexs(o->name, strlen(o->name)).c_str(), hexs(e.first).c_str());
+            if (o->size != e.second.size() + 1 || memcmp(o->data, e.second.c_str(), o->size) != 0) c.fail(FUNC, "conf:ini-value", "entry %zu (%s) has value %s, the file says %s", i, hexs(e.first).c_str(), hexs(o->data, o->size, 60).c_str(), hexs(e.second, 60).c_str());
+        }
+        if (i != expect.size()) c.fail(FUNC, "conf:ini-missing", "parser delivered %zu of the %zu entries written (first missing: %s)", i, expect.size(), hexs(expect[i].first).c_str());
+    };
 }
 
 // =====================================================================================  Apache style
 enum { T_STR = 0, T_INT = 1, T_FLOAT = 2, T_BOOL = 3 };
 struct OptDef { std::string name; int ntake; int argtype[5]; int deftype; bool is_section; uint64_t sectionid, sections; int cbkind; };   // cbkind 0 record, 1 NULL, 2 error
 struct Rec { int otype; uint64_t section, sections; int level; std::vector<std::string> argv; std::vector<std::string> parents; };
-std::vector<Rec> g_rec;
+thread_local std::vector<Rec> g_rec;
 bool g_cb_error_armed = false;
 
 char *cb_record(qaconf_cbdata_t *d, void *ud) {
@@ -336,7 +345,7 @@ char *cb_maybe_fail(qaconf_cbdata_t *d, void *ud) {
     return nullptr;
 }
 
-void check_apache(Src &s, Ctx &c) {
+Job gen_apache(Src &s, Ctx &c, bool *nontriv) {
     ApGen g(s, c);
     g.make_table();
     bool invalid = s.chance(2, 5);
@@ -350,81 +359,109 @@ void check_apache(Src &s, Ctx &c) {
     bool expect_error = g.injected;
     int fail_after = -1;
     if (g.inject == 9 && g.injected) fail_after = (int)g.expect.size() - 1;      // the callback of the last recorded directive refuses
-    std::vector<qaconf_option_t> tbl;
-    for (auto &o : g.opts) { qaconf_option_t q; q.name = (char *)o.name.c_str(); q.take = g.take_bits(o); q.cb = o.cbkind == 1 ? nullptr : cb_maybe_fail; q.sectionid = o.sectionid; q.sections = o.sections; tbl.push_back(q); }
-    qaconf_option_t end = QAC_OPTION_END; tbl.push_back(end);
-    std::string path = g_dir + "/apache.conf";
-    write_file(path, g.doc);
+    std::string path = slot_dir() + "/apache.conf";
     c.op("Apache doc: %zu options, flags %d%s, %s, %d directive line(s), %zu callbacks expected: %s", g.opts.size(), g.flags, g.defh ? "+defhandler" : "", expect_error ? strf("violation kind %d injected at line %d", g.inject, g.error_line).c_str() : "valid", g.expect_count, g.expect.size(), hexs(g.doc, 400).c_str());
-    g_rec.clear();
-    qaconf_t *q = qaconf();
-    if (!q) c.fail(FUNC, "conf:qaconf-ctor", "qaconf() returned NULL");
-    struct G { qaconf_t *q; ~G() { q->free(q); } } gg{q};
-    int cnt_remaining = fail_after;
-    q->addoptions(q, tbl.data());
-    q->setuserdata(q, &cnt_remaining);
-    if (g.defh) q->setdefhandler(q, cb_maybe_fail);
     bool reload = s.chance(1, 3);
-    if (reload) {
-        // a configuration reload: the same parser object parses the same path a second time; the
-        // first content is a few comment/blank lines (a valid document without directives)
-        std::string pre; int k = (int)s.range(1, 6); for (int i = 0; i < k; i++) pre += (i & 1) ? "\n" : "# earlier version of this file\n";
-        write_file(path, pre);
-        int n0 = q->parse(q, path.c_str(), (uint8_t)g.flags);
-        if (n0 != 0) c.fail(FUNC, "conf:apache-count", "a file of comments and blank lines returned %d", n0);
-        q->reseterror(q);
-        g_rec.clear();
-        write_file(path, g.doc);
-        c.tag("apache_second_parse_with_same_object");
-    }
-    int n = q->parse(q, path.c_str(), (uint8_t)g.flags);
-    const char *em = q->errmsg(q);
-    std::string emsg = em ? em : "";
-    if (!expect_error && n < 0) c.fail(FUNC, "conf:apache-rejected-valid", "parse returned %d for a valid document with %d directive lines (error: %s)", n, g.expect_count, emsg.c_str());
-    // compare the callback stream
-    size_t ncmp = g.expect.size();
-    for (size_t i = 0; i < ncmp && i < g_rec.size(); i++) {
-        const Rec &a = g_rec[i], &e = g.expect[i];
-        std::string what;
-        if (a.otype != e.otype) what = strf("otype %d, expected %d", a.otype, e.otype);
-        else if (a.level != e.level) what = strf("level %d, expected %d", a.level, e.level);
-        else if (a.section != e.section || a.sections != e.sections) what = strf("section/sections %llu/%llu, expected %llu/%llu", (unsigned long long)a.section, (unsigned long long)a.sections, (unsigned long long)e.section, (unsigned long long)e.sections);
-        else if (a.parents.size() != e.parents.size()) what = strf("parent chain of length %zu, expected %zu", a.parents.size(), e.parents.size());
-        else if (a.argv.size() != e.argv.size()) what = strf("argc %zu, expected %zu", a.argv.size(), e.argv.size());
-        else {
-            for (size_t j = 0; j < e.parents.size() && what.empty(); j++) if (a.parents[j] != e.parents[j]) what = "parent chain " + hexs(a.parents[j]) + ", expected " + hexs(e.parents[j]);
-            for (size_t j = 0; j < e.argv.size() && what.empty(); j++) if (a.argv[j] != e.argv[j]) what = strf("argv[%zu] = %s, expected %s", j, hexs(a.argv[j], 40).c_str(), hexs(e.argv[j], 40).c_str());
-        }
-        if (!what.empty()) c.fail(FUNC, "conf:apache-callback", "callback %zu (%s): %s", i, e.argv.empty() ? "?" : e.argv[0].c_str(), what.c_str());
-    }
-    if (g_rec.size() != g.expect.size()) c.fail(FUNC, "conf:apache-callback-count", "%zu callbacks were made, the document has %zu directives with a handler%s", g_rec.size(), g.expect.size(), expect_error ? " before the violation" : "");
-    if (!expect_error) {
-        if (n != g.expect_count) c.fail(FUNC, n < 0 ? "conf:apache-rejected-valid" : "conf:apache-count", "parse returned %d for a valid document with %d directive lines (error: %s)", n, g.expect_count, emsg.c_str());
-    } else {
-        if (n != -1) c.fail(FUNC, "conf:apache-accepted-invalid", "parse returned %d for a document with an injected violation (kind %d at line %d)", n, g.inject, g.error_line);
-        int line = g.error_line == -1 ? g.lineno : g.error_line;
-        std::string want = path + ":" + std::to_string(line) + " ";
-        if (emsg.find(want) == std::string::npos) c.fail(FUNC, "conf:apache-errline", "error message '%s' does not name %s (violation kind %d)", emsg.c_str(), want.c_str(), g.inject);
-    }
-    c.nontrivial = (g.nested > 0 && g.escapes > 0) || expect_error;
+    // a configuration reload: the same parser object parses the same path a second time; the
+    // first content is a few comment/blank lines (a valid document without directives)
+    std::string pre; if (reload) { int k = (int)s.range(1, 6); for (int i = 0; i < k; i++) pre += (i & 1) ? "\n" : "# earlier version of this file\n"; c.tag("apache_second_parse_with_same_object"); }
+    *nontriv = (g.nested > 0 && g.escapes > 0) || expect_error;
     c.tag(expect_error ? strf("apache_invalid_kind_%d", g.inject).c_str() : "apache_valid");
     if (g.nested) c.tag("apache_with_nested_section");
+    // everything the run needs, by value
+    struct Plan { std::vector<OptDef> opts; std::vector<uint32_t> take; int flags; bool defh; std::string doc, pre, path; std::vector<Rec> expect; int expect_count, fail_after, inject, error_line, lineno; bool expect_error, reload; };
+    auto pl = std::make_shared<Plan>();
+    pl->opts = g.opts; for (auto &o : g.opts) pl->take.push_back(g.take_bits(o));
+    pl->flags = g.flags; pl->defh = g.defh; pl->doc = g.doc; pl->pre = pre; pl->path = path; pl->expect = g.expect; pl->expect_count = g.expect_count; pl->fail_after = fail_after;
+    pl->inject = g.inject; pl->error_line = g.error_line; pl->lineno = g.lineno; pl->expect_error = expect_error; pl->reload = reload;
+    return [pl](Ctx &c) {
+        const Plan &P = *pl;
+        std::vector<qaconf_option_t> tbl;
+        for (size_t k = 0; k < P.opts.size(); k++) { const OptDef &o = P.opts[k]; qaconf_option_t q; q.name = (char *)o.name.c_str(); q.take = P.take[k]; q.cb = o.cbkind == 1 ? nullptr : cb_maybe_fail; q.sectionid = o.sectionid; q.sections = o.sections; tbl.push_back(q); }
+        qaconf_option_t end = QAC_OPTION_END; tbl.push_back(end);
+        write_file(P.path, P.doc);
+        g_rec.clear();
+        qaconf_t *q = qaconf();
+        if (!q) c.fail(FUNC, "conf:qaconf-ctor", "qaconf() returned NULL");
+        struct G { qaconf_t *q; ~G() { q->free(q); } } gg{q};
+        int cnt_remaining = P.fail_after;
+        q->addoptions(q, tbl.data());
+        q->setuserdata(q, &cnt_remaining);
+        if (P.defh) q->setdefhandler(q, cb_maybe_fail);
+        if (P.reload) {
+            write_file(P.path, P.pre);
+            int n0 = q->parse(q, P.path.c_str(), (uint8_t)P.flags);
+            if (n0 != 0) c.fail(FUNC, "conf:apache-count", "a file of comments and blank lines returned %d", n0);
+            q->reseterror(q);
+            g_rec.clear();
+            write_file(P.path, P.doc);
+        }
+        dirty_stack();
+        int n = q->parse(q, P.path.c_str(), (uint8_t)P.flags);
+        const char *em = q->errmsg(q);
+        std::string emsg = em ? em : "";
+        if (!P.expect_error && n < 0) c.fail(FUNC, "conf:apache-rejected-valid", "parse returned %d for a valid document with %d directive lines (error: %s)", n, P.expect_count, emsg.c_str());
+        // compare the callback stream
+        size_t ncmp = P.expect.size();
+        for (size_t i = 0; i < ncmp && i < g_rec.size(); i++) {
+            const Rec &a = g_rec[i], &e = P.expect[i];
+            std::string what;
+            if (a.otype != e.otype) what = strf("otype %d, expected %d", a.otype, e.otype);
+            else if (a.level != e.level) what = strf("level %d, expected %d", a.level, e.level);
+            else if (a.section != e.section || a.sections != e.sections) what = strf("section/sections %llu/%llu, expected %llu/%llu", (unsigned long long)a.section, (unsigned long long)a.sections, (unsigned long long)e.section, (unsigned long long)e.sections);
+            else if (a.parents.size() != e.parents.size()) what = strf("parent chain of length %zu, expected %zu", a.parents.size(), e.parents.size());
+            else if (a.argv.size() != e.argv.size()) what = strf("argc %zu, expected %zu", a.argv.size(), e.argv.size());
+            else {
+                for (size_t j = 0; j < e.parents.size() && what.empty(); j++) if (a.parents[j] != e.parents[j]) what = "parent chain " + hexs(a.parents[j]) + ", expected " + hexs(e.parents[j]);
+                for (size_t j = 0; j < e.argv.size() && what.empty(); j++) if (a.argv[j] != e.argv[j]) what = strf("argv[%zu] = %s, expected %s", j, hexs(a.argv[j], 40).c_str(), hexs(e.argv[j], 40).c_str());
+            }
+            if (!what.empty()) c.fail(FUNC, "conf:apache-callback", "callback %zu (%s): %s", i, e.argv.empty() ? "?" : e.argv[0].c_str(), what.c_str());
+        }
+        if (g_rec.size() != P.expect.size()) c.fail(FUNC, "conf:apache-callback-count", "%zu callbacks were made, the document has %zu directives with a handler%s", g_rec.size(), P.expect.size(), P.expect_error ? " before the violation" : "");
+        if (!P.expect_error) {
+            if (n != P.expect_count) c.fail(FUNC, n < 0 ? "conf:apache-rejected-valid" : "conf:apache-count", "parse returned %d for a valid document with %d directive lines (error: %s)", n, P.expect_count, emsg.c_str());
+        } else {
+            if (n != -1) c.fail(FUNC, "conf:apache-accepted-invalid", "parse returned %d for a document with an injected violation (kind %d at line %d)", n, P.inject, P.error_line);
+            int line = P.error_line == -1 ? P.lineno : P.error_line;
+            std::string want = P.path + ":" + std::to_string(line) + " ";
+            if (emsg.find(want) == std::string::npos) c.fail(FUNC, "conf:apache-errline", "error message '%s' does not name %s (violation kind %d)", emsg.c_str(), want.c_str(), P.inject);
+        }
+    };
 }
 }  // namespace
 
+static bool g_conc_only = false;
 bool vf_configure(Ctx &c) {
     if (c.mode != "C20") return false;
     c.deciding = FUNC | CRASH | HANG; c.noteonly = MEM | LEAK;
     const char *td = getenv("TMPDIR");
     g_dir = std::string(td ? td : "/dev/shm") + "/vf-conf-" + std::to_string(getpid());
     mkdir(g_dir.c_str(), 0700);
-    atexit([] { for (const char *f : {"/inc0.conf", "/inc1.conf", "/main.conf", "/apache.conf"}) unlink((g_dir + f).c_str()); rmdir(g_dir.c_str()); });
+    for (int i = 0; i < 4; i++) mkdir((g_dir + "/s" + std::to_string(i)).c_str(), 0700);
+    atexit([] { for (int i = 0; i < 4; i++) { std::string d = g_dir + "/s" + std::to_string(i); for (const char *f : {"/inc0.conf", "/inc1.conf", "/main.conf", "/apache.conf"}) unlink((d + f).c_str()); rmdir(d.c_str()); } rmdir(g_dir.c_str()); });
     setenv("VF_SET_ENV", "env value-1", 1);
     unsetenv("VF_UNSET_ENV");
+    g_conc_only = getenv("VF_CONC_ONLY") != nullptr;
     return true;
 }
 
 void run_case(Src &s, Ctx &c) {
-    if (s.pick({2, 3}) == 0) check_ini(s, c); else check_apache(s, c);
+    bool nt = false;
+    if (g_conc_only || s.chance(1, 20)) {
+        // concurrent callers: 2..4 threads, each parsing its own documents with its own parser objects
+        size_t nth = (size_t)s.range(2, 4); int rounds = (int)s.range(3, 20);
+        std::vector<std::vector<Job>> jobs(nth);
+        for (size_t i = 0; i < nth; i++) { g_slot = (int)i; c.op("thread %zu:", i); jobs[i].push_back(s.pick({2, 3}) == 0 ? gen_ini(s, c, &nt) : gen_apache(s, c, &nt)); }
+        g_slot = 0;
+        c.op("the %zu threads parse their documents %d times concurrently", nth, rounds);
+        run_concurrent(c, jobs, rounds, "conf");
+        c.check_san("parsers called from several threads");
+        c.nontrivial = true; c.tag("concurrent_callers");
+        return;
+    }
+    g_slot = 0;
+    Job j = s.pick({2, 3}) == 0 ? gen_ini(s, c, &nt) : gen_apache(s, c, &nt);
+    j(c);
+    c.nontrivial = nt;
     c.check_san("parser");
 }
